@@ -97,6 +97,25 @@ func (m *ChainMonitor) CheckChain(blocks []*ledger.Block, step string) {
 				if t.Timestamp() > b.Timestamp() || t.Timestamp() < blocks[k-1].Timestamp() {
 					m.hit("C04", "window", fmt.Sprintf("%s: block %d transaction %s dated %d outside [%d,%d]", step, k, t.Id(), t.Timestamp(), blocks[k-1].Timestamp(), b.Timestamp()))
 				}
+				// C15: what is served for an id is the content that id was computed from
+				{
+					var jt JTx
+					if bs, err := json.Marshal(t); err == nil && json.Unmarshal(bs, &jt) == nil {
+						canon := jt
+						canon.Inputs = nil
+						for _, in := range jt.Inputs {
+							c := *in
+							c.Signature = strings.ToLower(c.Signature)
+							canon.Inputs = append(canon.Inputs, &c)
+						}
+						if jt.Inputs != nil && canon.Inputs == nil {
+							canon.Inputs = []*JInput{}
+						}
+						if canon.ComputeId() != t.Id() {
+							m.hit("C15", "served-id", fmt.Sprintf("%s: block %d serves transaction %s whose content now hashes to %s", step, k, t.Id(), canon.ComputeId()))
+						}
+					}
+				}
 				inSum := new(big.Int)
 				for _, in := range t.Inputs() {
 					key := outKey{in.TransactionId(), in.OutputIndex()}
